@@ -1,7 +1,8 @@
-(* CompactionProofs.v — theorems about the compaction model (Compaction.v). *)
+(* CompactionBeforeProofs.v — the model of the code BEFORE the fixes (CompactionBefore.v): the
+   executor lemmas and the witnesses that refuted C12 then. *)
 From Coq Require Import Lia Sorted.
 From KV Require MemtableProofs.
-From KV Require Import Compaction.
+From KV Require Import CompactionBefore.
 Open Scope N_scope.
 
 (* ---------- byte-string order ---------- *)
@@ -525,200 +526,156 @@ Proof.
   - destruct (select_range _ _ _); auto.
 Qed.
 
+(* ---------- the property at system level, and what the model of the pinned code says ---------- *)
 
-(* ---------- every file of every reachable directory is strictly ascending ---------- *)
+(* C12, last sentence: the database reopened on the compacted files, also after the flushed
+   log files were retired, reads the same as before — for every program. [cfull] makes sure
+   every acknowledged write is in an SSTable (the precondition of retiring the log). The
+   hypothesis excludes a recovery that ran out of memtable budget (C02's subject). *)
+Definition C12_reopen_statement : Prop :=
+  forall c k ops sizes key,
+    let s := crun c k ops in
+    lost_log (eng s) = false ->
+    cget (creopen s false) key = cget s key /\
+    cget (creopen (cfull s sizes) true) key = cget s key.
 
-Module MP := MemtableProofs.
+(* C12, first sentence, for one compaction step on a database whose log is retired: what the
+   files read as (to a database opened on them alone) is not changed by the compaction *)
+Definition C12_merge_statement : Prop :=
+  forall c k ops sizes key,
+    let s := crun c k ops in
+    disk_read (ctrigger s sizes) key = disk_read s key.
 
-Definition mt_ok (m : memtable) : Prop := MP.sorted (mt_entries m).
-Definition file_ok (t : sst) : Prop := asc (s_entries t).
-Definition dfile_ok (f : dfile) : Prop := asc (d_entries f).
+(* C12, deletion clause, as a rule on the filter: a deletion marker that is the newest version
+   among the inputs is kept whenever some file outside the inputs still holds the key *)
+Definition C12_tombstone_safe_statement : Prop :=
+  forall c k ops t key e f,
+    let s := crun c k ops in
+    select (c_maxmem (cfg (eng s))) (cc s) (disk s) = Some t ->
+    first_hit key (task_sources t) = Some e -> is_tomb e = true ->
+    In f (remove_files (t_inputs t) (disk s)) -> has key (d_entries f) = true ->
+    keep_of (tracked s) key = true.
 
-Lemma asc_snoc : forall l x, asc l -> (forall y, In y l -> bcmp (sk y) (sk x) = Lt) -> asc (l ++ [x]).
+Definition kx : bytes := [120].   (* "x" *)
+Definition ka : bytes := [97].
+Definition kb : bytes := [98].
+Definition cfg2 : config := mkCfg 100000 2.
+Definition cfg8 : config := mkCfg 100000 8.
+Definition cc_off : ccfg := mkCC 1000000 1000000.
+
+(* (a) two level-0 files hold x; the L0->L1 task lists them oldest first, the first source wins *)
+Definition w_two_l0 : list cop := [CPut kx [1]; CFull []; CPut kx [2]; CFull []; CTrigger []].
+(* (d) delete after a restart: tracker empty, marker dropped, x=1 still in the level-1 file *)
+Definition w_tomb_restart : list cop :=
+  [CPut kx [1]; CFull []; CRange kx kx []; CPut ka [2]; CDel kx; CFull []; CReopen false; CRange ka ka []].
+(* (d) delete committed by a transaction is never tracked; target level 1 <= MaxLevelWithTombstones *)
+Definition w_tomb_tx : list cop :=
+  [CPut kx [1]; CFull []; CRange kx kx []; CRange kx kx []; CCommit [(kx, None); (ka, Some [2])];
+   CFull []; CPut kb [3]; CFull []; CTrigger []].
+(* (c) the level-1 output sorts after (is consulted before) the newer level-0 file *)
+Definition w_deeper : list cop := [CPut kx [1]; CFull []; CRange kx kx []; CPut kx [2]].
+(* no compaction at all: file numbers restart at 1 on every open *)
+Definition w_numbers : list cop :=
+  [CPut kx [1]; CFull []; CPut kx [2]; CFull []; CReopen true; CPut kx [3]].
+
+Theorem reopen_refuted_two_l0 :
+  let s := crun cfg2 cc_off w_two_l0 in
+  lost_log (eng s) = false /\ cget s kx = Some [2] /\ cget (creopen (cfull s []) true) kx = Some [1].
+Proof. vm_compute. auto. Qed.
+
+Theorem reopen_refuted_tomb_restart :
+  let s := crun cfg2 cc_off w_tomb_restart in
+  lost_log (eng s) = false /\ cget s kx = None /\ cget (creopen (cfull s []) true) kx = Some [1].
+Proof. vm_compute. auto. Qed.
+
+Theorem reopen_refuted_tomb_tx :
+  let s := crun cfg2 cc_off w_tomb_tx in
+  lost_log (eng s) = false /\ cget s kx = None /\ cget (creopen (cfull s []) true) kx = Some [1].
+Proof. vm_compute. auto. Qed.
+
+Theorem reopen_refuted_deeper :
+  let s := crun cfg2 cc_off w_deeper in
+  lost_log (eng s) = false /\ cget s kx = Some [2] /\ cget (creopen (cfull s []) true) kx = Some [1].
+Proof. vm_compute. auto. Qed.
+
+Theorem reopen_refuted_numbers :
+  let s := crun cfg8 cc_off w_numbers in
+  lost_log (eng s) = false /\ cget s kx = Some [3] /\ cget (creopen (cfull s []) true) kx = Some [2].
+Proof. vm_compute. auto. Qed.
+
+Theorem reopen_refuted : ~ C12_reopen_statement.
 Proof.
-  induction l; simpl; intros. repeat constructor.
-  apply asc_cons_inv in H. destruct H. apply asc_cons.
-  - apply IHl; auto.
-  - unfold above in *. rewrite Forall_forall in *. intros z Hz. apply in_app_iff in Hz.
-    destruct Hz as [Hz|[<-|[]]]; auto.
+  intro H. specialize (H cfg2 cc_off w_two_l0 [] kx).
+  destruct reopen_refuted_two_l0 as (A & B & C). destruct (H A) as [_ H2].
+  rewrite B, C in H2. discriminate.
 Qed.
 
-Lemma asc_app_inv : forall a b, asc (a ++ b) -> asc a /\ asc b.
+(* the merge itself: two level-0 tables, the one flushed later (timestamp 1) holds x=2, the
+   strategy selects both, the output holds x=1 *)
+Definition two_l0_dir : list dfile :=
+  [mkD (mkSst 0 1 0 [mkS kx 1 (Some [1])]) 0; mkD (mkSst 0 2 1 [mkS kx 2 (Some [2])]) 0].
+
+Theorem merge_refuted :
+  exists t, select 2 cc_off two_l0_dir = Some t /\
+            t_inputs t = two_l0_dir /\
+            exec_outputs (fun _ => false) 1000000 (task_sources t) = [[mkS kx 0 (Some [1])]].
+Proof. eexists. vm_compute. auto. Qed.
+
+(* on a database opened on the files alone: a compaction cycle changes what x reads as *)
+Definition w_merge : list cop :=
+  [CPut kx [1]; CFull []; CPut kx [2]; CFull []; CReopen true].
+Theorem merge_statement_refuted : ~ C12_merge_statement.
 Proof.
-  induction a; simpl; intros. split; auto. constructor.
-  apply asc_cons_inv in H. destruct H. destruct (IHa _ H). split; auto.
-  apply asc_cons; auto. unfold above in *. rewrite Forall_forall in *. intros. apply H0.
-  apply in_or_app. auto.
+  intro H. specialize (H cfg2 cc_off w_merge [] kx). vm_compute in H. discriminate.
 Qed.
 
-Lemma asc_concat_each : forall l, asc (concat l) -> Forall asc l.
+(* the state before the last compaction of w_tomb_tx *)
+Definition w_tomb_pre : list cop :=
+  [CPut kx [1]; CFull []; CRange kx kx []; CRange kx kx []; CCommit [(kx, None); (ka, Some [2])];
+   CFull []; CPut kb [3]; CFull []].
+
+Definition w_tomb_task : task :=
+  mkT [mkD (mkSst 0 2 3 [mkS ka 2 (Some [2]); mkS kx 2 None]) 0;
+       mkD (mkSst 0 3 4 [mkS ka 2 (Some [2]); mkS kb 3 (Some [3]); mkS kx 2 None]) 0] 1.
+Definition w_tomb_older : dfile := mkD (mkSst 2 1 2 [mkS kx 0 (Some [1])]) 0.
+
+(* the L0->L1 task merges the deletion marker of x (committed by a transaction, hence unknown
+   to the tracker) although x=1 lives in a level-2 file outside the inputs: the rule says drop *)
+Lemma tomb_w_select :
+  select (c_maxmem (cfg (eng (crun cfg2 cc_off w_tomb_pre)))) (cc (crun cfg2 cc_off w_tomb_pre))
+         (disk (crun cfg2 cc_off w_tomb_pre)) = Some w_tomb_task.
+Proof. vm_compute. reflexivity. Qed.
+Lemma tomb_w_first : first_hit kx (task_sources w_tomb_task) = Some (mkS kx 2 None).
+Proof. vm_compute. reflexivity. Qed.
+Lemma tomb_w_outside :
+  In w_tomb_older (remove_files (t_inputs w_tomb_task) (disk (crun cfg2 cc_off w_tomb_pre))).
+Proof. vm_compute. left. reflexivity. Qed.
+Lemma tomb_w_has : has kx (d_entries w_tomb_older) = true.
+Proof. vm_compute. reflexivity. Qed.
+Lemma tomb_w_keep : keep_of (tracked (crun cfg2 cc_off w_tomb_pre)) kx = false.
+Proof. vm_compute. reflexivity. Qed.
+
+Theorem tombstone_safe_refuted : ~ C12_tombstone_safe_statement.
 Proof.
-  induction l; simpl; intros. constructor. apply asc_app_inv in H. destruct H. constructor; auto.
+  intro H.
+  specialize (H cfg2 cc_off w_tomb_pre w_tomb_task kx _ w_tomb_older
+                tomb_w_select tomb_w_first eq_refl tomb_w_outside tomb_w_has).
+  cbv zeta in H. rewrite tomb_w_keep in H. discriminate.
 Qed.
 
-Lemma sk_to_sentry : forall x, sk (to_sentry x) = mk x.
-Proof. destruct x; auto. Qed.
+(* file numbers restart at 1 after a reopen: the L0->L1 cycle takes the NEW 0_000001 and the old
+   0_000002 and leaves the old 0_000003 in level 0; the next (range) compaction lists level 0
+   before level 1, so the stale x=1 of the left-behind file beats the newer x=2 of level 1 *)
+Definition w_shallower : list cop :=
+  [CPut ka [0]; CFull []; CRange ka ka []; CPut kx [1]; CFull []; CFull []; CReopen true;
+   CPut kx [2]; CFull []; CTrigger []].
 
-Lemma asc_last_max : forall l last y, asc (l ++ [last]) -> In y l -> bcmp (sk y) (sk last) = Lt.
-Proof.
-  induction l; simpl; intros. tauto.
-  apply asc_cons_inv in H. destruct H. destruct H0.
-  - subst. unfold above in H1. rewrite Forall_forall in H1. apply H1. apply in_or_app. simpl. auto.
-  - eapply IHl; eauto.
-Qed.
-
-(* flushMemTable's collection loop on a table sorted by (key up, sequence down): one entry per
-   key, keys strictly ascending *)
-Lemma collect_aux_asc : forall l acc,
-  MP.sorted l -> asc (rev acc) ->
-  (forall last acc', acc = last :: acc' -> Forall (fun x => bcmp (sk last) (mk x) <> Gt) l) ->
-  asc (collect_aux acc l).
-Proof.
-  induction l as [|x r IH]; simpl; intros acc Hs Ha Hl; auto.
-  apply MP.sorted_cons_inv in Hs. destruct Hs as [Hs Hx].
-  assert (Hxr : Forall (fun y => bcmp (mk x) (mk y) <> Gt) r).
-  { rewrite Forall_forall in *. intros y Hy. apply Hx in Hy. apply MP.ele_iff in Hy.
-    destruct Hy as [Hy|[Hy _]]. rewrite Hy. congruence. rewrite Hy, cb_refl. congruence. }
-  destruct acc as [|last acc'].
-  - apply IH; auto. simpl. repeat constructor.
-    intros. inversion H; subst. rewrite sk_to_sentry. auto.
-  - specialize (Hl _ _ eq_refl). inversion Hl as [|? ? Hlx Hlr]; subst.
-    simpl in Ha.
-    destruct (beq (sk last) (mk x)) eqn:E.
-    + apply beq_iff in E.
-      destruct (sseq last <? mseq x).
-      * apply IH; auto.
-        -- simpl. apply asc_snoc. apply asc_app_inv in Ha. tauto.
-           intros y Hy. rewrite sk_to_sentry, <- E. eapply asc_last_max; eauto.
-        -- intros. inversion H; subst. rewrite sk_to_sentry. auto.
-      * apply IH; auto. intros. inversion H; subst. rewrite E. auto.
-    + assert (Hlt : bcmp (sk last) (mk x) = Lt).
-      { destruct (bcmp (sk last) (mk x)) eqn:C; auto; try congruence.
-        apply cb_eq in C. rewrite C in E. rewrite (proj2 (beq_iff _ _) eq_refl) in E. discriminate. }
-      apply IH; auto.
-      * simpl. apply asc_snoc; auto. intros y Hy. rewrite sk_to_sentry.
-        apply in_app_iff in Hy. destruct Hy as [Hy|[<-|[]]]; auto.
-        eapply cb_lt_trans; eauto. eapply asc_last_max; eauto.
-      * intros. inversion H; subst. rewrite sk_to_sentry. auto.
-Qed.
-
-Lemma collect_asc : forall l, MP.sorted l -> asc (collect l).
-Proof.
-  intros. unfold collect. apply collect_aux_asc; auto. constructor. intros. discriminate.
-Qed.
-
-Lemma filter_sorted : forall f l, MP.sorted l -> MP.sorted (filter f l).
-Proof.
-  intros. apply MP.sorted_strong. apply MP.sorted_strong in H.
-  induction H; simpl. constructor. destruct (f a); auto. constructor; auto.
-  rewrite Forall_forall in *. intros. apply H0. apply filter_In in H1. tauto.
-Qed.
-
-Lemma mt_add_ok : forall m e, mt_ok m -> mt_ok (mt_add m e).
-Proof. unfold mt_ok, mt_add. intros. destruct (mt_imm m); simpl; auto. apply MP.insert_sorted; auto. Qed.
-
-Lemma mt_empty_ok : mt_ok mt_empty.
-Proof. unfold mt_ok. simpl. constructor. Qed.
-
-Record eng_ok (e : st) : Prop := mkEO {
-  eo_active : mt_ok (active e);
-  eo_pending : Forall mt_ok (pending e);
-  eo_ssts : Forall file_ok (ssts e)
-}.
-
-Lemma pool_add_ok : forall e m, eng_ok e -> eng_ok (pool_add e m).
-Proof. intros e m [A B C]. constructor; simpl; auto. apply mt_add_ok; auto. Qed.
-
-Lemma maybe_schedule_ok : forall e, eng_ok e -> eng_ok (maybe_schedule e).
-Proof.
-  unfold maybe_schedule. intros e [A B C]. destruct (flush_pending e). 2: constructor; auto.
-  constructor; simpl; auto. apply mt_empty_ok. apply Forall_app. split; auto.
-Qed.
-
-Lemma upd_wal_ok : forall e n f, eng_ok e -> eng_ok (upd_wal e n f).
-Proof. intros e n f [A B C]. constructor; auto. Qed.
-Lemma set_last_ok : forall e n, eng_ok e -> eng_ok (set_last e n).
-Proof. intros e n [A B C]. constructor; auto. Qed.
-
-Lemma fold_add_ok : forall (ops : list bop) q s, eng_ok s ->
-  eng_ok (fold_left (fun a o => set_last (pool_add a (bop_mentry q o)) q) ops s).
-Proof. induction ops; simpl; auto. intros. apply IHops. apply set_last_ok, pool_add_ok; auto. Qed.
-
-Lemma apply_batch_ok : forall e ops, eng_ok e -> eng_ok (fst (apply_batch e ops)).
-Proof.
-  unfold apply_batch. intros. destruct ops as [|b ops']; auto.
-  destruct (MaxSeq <=? wal_next e); auto.
-  cbn [fst]. apply maybe_schedule_ok, fold_add_ok, upd_wal_ok; auto.
-Qed.
-
-Lemma put_ok : forall e k v, eng_ok e -> eng_ok (fst (put e k v)).
-Proof.
-  unfold put. intros. destruct (MaxSeq <=? wal_next e); auto. simpl.
-  apply maybe_schedule_ok, set_last_ok, pool_add_ok, upd_wal_ok; auto.
-Qed.
-Lemma del_ok : forall e k, eng_ok e -> eng_ok (fst (del e k)).
-Proof.
-  unfold del. intros. destruct (MaxSeq <=? wal_next e); auto. simpl.
-  apply maybe_schedule_ok, set_last_ok, pool_add_ok, upd_wal_ok; auto.
-Qed.
-Lemma tx_commit_ok : forall e ops, eng_ok e -> eng_ok (fst (tx_commit e ops)).
-Proof. unfold tx_commit. intros. destruct (buffer_ops ops); auto. apply apply_batch_ok; auto. Qed.
-
-Lemma flush_table_ok : forall e m, eng_ok e -> mt_ok m ->
-  eng_ok (flush_table e m) /\ pending (flush_table e m) = pending e /\ active (flush_table e m) = active e.
-Proof.
-  unfold flush_table. intros e m [A B C] Hm. destruct (mt_size m =? 0). repeat split; auto.
-  destruct (collect (mt_iter_entries m)) eqn:E. repeat split; auto.
-  repeat split; simpl; auto. apply Forall_app. split; auto. constructor; auto.
-  unfold file_ok. simpl. rewrite <- E. apply collect_asc. apply filter_sorted. auto.
-Qed.
-
-Lemma flush_ok : forall e, eng_ok e -> eng_ok (flush e).
-Proof.
-  unfold flush. intros e H. destruct (pending e) eqn:P.
-  - destruct (0 <? mt_size (active e)); auto.
-    apply flush_table_ok. apply upd_wal_ok; auto. destruct H; auto.
-  - assert (Hp : Forall mt_ok (m :: l)) by (rewrite <- P; destruct H; auto).
-    assert (H0 : eng_ok (rotate (clear_pending e))).
-    { destruct H. constructor; simpl; auto. }
-    revert H0 Hp. generalize (rotate (clear_pending e)). generalize (m :: l). clear.
-    induction l; simpl; auto. intros. inversion Hp; subst. apply IHl; auto.
-    apply flush_table_ok; auto.
-Qed.
-
-Lemma sst_insert_in' : forall x l t, In t (sst_insert x l) <-> t = x \/ In t l.
-Proof.
-  induction l; simpl; intros. intuition.
-  destruct (sst_le x a); simpl. intuition. rewrite IHl. intuition.
-Qed.
-Lemma sst_sort_in' : forall l t, In t (sst_sort l) <-> In t l.
-Proof.
-  induction l; simpl; intros. tauto. rewrite sst_insert_in', IHl. intuition.
-Qed.
-
-Lemma recover_tables_ok : forall c es tables maxseq r q,
-  Forall mt_ok tables -> recover_tables c es tables maxseq = Some (r, q) -> Forall mt_ok r.
-Proof.
-  induction es; simpl; intros. inversion H0; subst. auto.
-  destruct tables as [|cur older]; try discriminate. inversion H; subst.
-  destruct (c_memsize c <=? mt_size cur).
-  - destruct (c_maxmem c <=? _); try discriminate.
-    eapply IHes in H0; eauto. constructor; [|constructor; auto].
-    destruct (wentry_mentry a). apply mt_add_ok, mt_empty_ok. apply mt_empty_ok.
-  - eapply IHes in H0; eauto. constructor; auto. destruct (wentry_mentry a); auto. apply mt_add_ok; auto.
-Qed.
-
-Lemma reopen_ok : forall e, Forall file_ok (ssts e) -> eng_ok (reopen e).
-Proof.
-  unfold reopen. intros.
-  assert (S : Forall file_ok (sst_sort (ssts e))).
-  { rewrite Forall_forall in *. intros. apply H. apply sst_sort_in'. auto. }
-  destruct (recover_tables _ _ _ _) as [[tbls maxseq]|] eqn:R.
-  - apply recover_tables_ok in R. 2: constructor; [apply mt_empty_ok|constructor].
-    constructor; simpl; auto.
-    + destruct tbls. apply mt_empty_ok. inversion R; auto.
-    + rewrite Forall_forall in *. intros m Hm. apply in_map_iff in Hm. destruct Hm as (m0 & <- & Hm0).
-      unfold mt_ok. simpl. apply R. apply in_rev in Hm0. destruct tbls; simpl in *. tauto. auto.
-  - constructor; simpl; auto. apply mt_empty_ok.
-Qed.
+Theorem refuted_shallower_older :
+  let s0 := crun cfg2 cc_off w_shallower in
+  let s := crange s0 kx kx [] in
+  map (fun f => (d_level f, d_entries f)) (dsort (disk s0)) =
+    [(0, [mkS ka 1 (Some [0]); mkS kx 2 (Some [1])]); (1, [mkS ka 0 (Some [0]); mkS kx 0 (Some [2])])] /\
+  map (fun f => (d_level f, d_entries f)) (disk s) = [(2, [mkS ka 0 (Some [0]); mkS kx 0 (Some [1])])] /\
+  lost_log (eng s) = false /\ cget s kx = Some [2] /\ cget (creopen s true) kx = Some [1].
+Proof. vm_compute. auto 6. Qed.
 
